@@ -145,6 +145,7 @@ def check(prop, tier, seed, jobs):
     entry = next((c for c in manifest['checks'] if c['property_id'] == prop), None)
     level = entry['level_claimed']['category'] if entry else 'other'
     hs = [h for h in run.HARNESSES.values() if prop in h.props]
+    run.KNOWN_REGIONS.update((e.get('witness') or {}).get('region') for e in load_known() if e.get('status') == 'open' and (e.get('witness') or {}).get('region'))
     tasks = [('verify', h.name, None) for h in hs]
     for h in hs:
         for i in range(len(h.canaries)):
@@ -197,6 +198,7 @@ def check(prop, tier, seed, jobs):
                 a['refuted'].append(o)
             else:
                 a['undecided'] += 1
+                a.setdefault('undecided_obs', []).append(o)
 
     baseline = {}
     bp = os.path.join(VERIF, 'baseline', 'obligations.json')
@@ -205,6 +207,7 @@ def check(prop, tier, seed, jobs):
     missing = sorted(set(baseline.get('clauses', [])) - set(clauses)) if baseline else []
 
     violations, known_lines, undecided, notes = [], [], [], []
+    known_undecided = []
     nknown = 0
     for oid, a in sorted(clauses.items()):
         for o in a['refuted']:
@@ -221,8 +224,15 @@ def check(prop, tier, seed, jobs):
                     violations.append((oid, o))
             else:
                 undecided.append((oid, 'auxiliary obligation refuted; native replay satisfies every property clause'))
-        if a['undecided']:
-            undecided.append((oid, 'solver returned unknown'))
+        for o in a.get('undecided_obs', []):
+            kf = next((e for e in known if finding_matches(e, prop, oid, o.get('meta'))), None)
+            if kf is not None:
+                # inside the input region / raise site of a listed finding: decided by the native run of the same contract
+                known_undecided.append((kf, oid))
+                nknown += 1
+            else:
+                undecided.append((oid, 'solver returned unknown'))
+                break
     for m in missing:
         undecided.append((m, 'clause of the committed baseline was not generated on this run'))
     for hname, err in undecided_harness.items():
@@ -236,9 +246,10 @@ def check(prop, tier, seed, jobs):
     bres = [r for r in results if r.get('task') == 'bounded' and not r.get('crash')]
     rres = [r for r in results if r.get('task') == 'random' and not r.get('crash')]
     fallback = []
-    if undecided:
+    if undecided or known_undecided:
         # bounded run-time check of the same contracts on the harnesses with undecided clauses
-        names = sorted({clauses[o]['harness'] for o, _ in undecided if o in clauses} | set(undecided_harness))
+        names = sorted({clauses[o]['harness'] for o, _ in undecided if o in clauses} | set(undecided_harness)
+                       | {clauses[o]['harness'] for _, o in known_undecided if o in clauses})
         ft = [('random', n, {'n': 600, 'seed': seed}) for n in names if n in run.HARNESSES and run.HARNESSES[n].conc]
         if ft:
             ctxm = mp.get_context('fork')
@@ -300,7 +311,7 @@ def check(prop, tier, seed, jobs):
                                          'source': src, 'failure': f})
         print('VIOLATION property=%s replay=%s obligation=%s' % (prop, path, oid))
 
-    fb_ok = bool(undecided) and all(not [f for f in r.get('failures', []) if f['kind'] == 'P'] for r in fallback) and bool(fallback)
+    fb_ok = bool(undecided) and bool(fallback) and not bviol
     status = 0
     if nviol:
         status = 1
